@@ -167,6 +167,9 @@ def run(rep):
     for _p, ls_ in scen_lines:
         for key, val, spec, _c, ln in ls_:
             written.setdefault(key.lower(), (attr_text(val), "{1:" + spec + "}" if spec else "{1}", ln))
+    dups = sorted({k.upper() for _p, ls_ in scen_lines for k, *_r in ls_ if sum(1 for k2, *_r2 in ls_ if k2.lower() == k.lower()) > 1})
+    rep.check(not dups, "R13.a", rel, "Grid.save", "no header key is written twice (the reader keeps the last value it meets)",
+              f"written more than once on one path: {dups[:4]}", line=save.lineno)
     keysets = {tuple(sorted(k for k, *_r in ls_)) for _p, ls_ in scen_lines}
     rep.check(len(keysets) == 1, "R13.a", rel, "Grid.save", "the same header keys are written for every data type", f"{len(keysets)} different key sets", line=save.lineno)
     for key in sorted(written):
@@ -352,6 +355,21 @@ def run(rep):
     tof = [n for n in ast.walk(save) if isinstance(n, ast.Call) and isinstance(n.func, ast.Attribute) and n.func.attr == "tofile"]
     rep.check(len(tof) == 1 and dotted(tof[0].func.value) in ("self._data", "self.data"), "R13.d", rel, "Grid.save",
               "raw data = self._data.tofile(filename)", ast.unparse(tof[0]) if tof else "no tofile call", line=save.lineno)
+    # every reader of raster bytes takes the byte order from the header: outside Grid.load (whose dtype carries it) no function of the class decodes
+    # raw cell bytes itself
+    nraw = 0
+    for qn_, f_ in mod.funcs.items():
+        if not qn_.startswith("Grid.") or qn_ == "Grid.load":
+            continue
+        for c_ in ast.walk(f_):
+            if isinstance(c_, ast.Call) and dotted(c_.func) in ("np.frombuffer", "np.fromfile", "np.fromstring", "numpy.frombuffer", "numpy.fromfile"):
+                nraw += 1
+                txt_ = ast.unparse(c_)
+                rep.check("byteorder" in txt_ or "newbyteorder" in txt_, "R13.d", rel, qn_, "raw cell bytes are decoded with the byte order of the header",
+                          f"`{txt_[:80]}` reads the bytes with a dtype that does not carry the header's BYTEORDER (Grid.load is the reader that applies it): a big-endian "
+                          "raster loaded this way is byte-swapped", line=c_.lineno, firm=True)
+    if not nraw:
+        rep.proved("R13.d", rel, "Grid", "Grid.load is the only decoder of raw cell bytes (from_header / from_stream / from_zip go through it)", line=load.lineno)
     from .. import pq
     ffs = set()
     for p_ in pq.PEval().run(load):
